@@ -6,9 +6,11 @@ ASSUMPTIONS = ['sequential client; a durability point is a successful mutating R
 
 def run(ctx, ps, gen_bad):
     if ctx.quick:
-        wl = [('unstablemix', 30, 3000, True, 300), ('unstablemix', 24, 3000, False, 150)]
+        wl = [('unstablemix', 30, 3000, True, 300), ('unstablemix', 24, 3000, False, 150),
+              # unstable data pending, a request too large for the journal, then COMMIT (defect fixed in b50158b)
+              ('refused', 0, 3000, True, 60, ctx.seed * 4 + 3)]
     else:
-        wl = [('unstablemix', 80, 3000, True, 4000), ('unstablemix', 60, 3000, False, 2000), ('unstablemix', 80, 5000, True, 4000)] * 2
+        wl = [('unstablemix', 80, 3000, True, 4000), ('unstablemix', 60, 3000, False, 2000), ('unstablemix', 80, 5000, True, 4000)] * 2 + [('refused', 0, 3000, True, 200, ctx.seed * 4 + i) for i in range(4)]
     return crashengine.run(ctx, 'C07', wl)
 
 
